@@ -109,3 +109,33 @@ theorem on_tick_is_tick (cfg : Cfg) (i : Tick.In) (hweb : cfg.hasWeb = true ∨ 
       simp_all
 
 end Flat
+
+/-! ### `ThreadStatusesMonitor.check_exception_raised`: the question `on_tick` asks -/
+namespace Mon
+--%GEN_MON%
+def renderFlags (t : Nat) : List Bool → Log
+  | [] => []
+  | v :: rest => ("statuses[" ++ toString t ++ "].is_exception_raised", some v) :: renderFlags (t + 1) rest
+
+theorem loop_reads_all (cfg : Cfg) (k : Bool → M Bool) :
+    ∀ (fl : List Bool) (i : Nat) (acc r : Bool) (rest : List Bool) (c : List Tick.Cmd) (l : Log),
+      check_exception_raised_for1 cfg k fl.length i acc { running := r, ans := fl ++ rest, cmds := c, log := l } =
+        k (acc || fl.any id) { running := r, ans := rest, cmds := c, log := l ++ renderFlags i fl } := by
+  intro fl
+  induction fl with
+  | nil => intro i acc r rest c l; simp [check_exception_raised_for1, renderFlags]
+  | cons v fl ih =>
+    intro i acc r rest c l
+    cases v <;>
+      simp [check_exception_raised_for1, renderFlags, bind, StateT.bind, pure, StateT.pure, ih, List.append_assoc]
+
+/-- **`check_exception_raised()`, as translated from the source, is `Tick.readFlags`**: every status is asked, in
+order, whatever the earlier ones answered (no early exit), and the result is whether any flag was set - the single
+answer `on_tick_is_tick` takes for this call. -/
+theorem check_exception_raised_is_readFlags (cfg : Cfg) (fl : List Bool) (h : cfg.nStatuses = fl.length)
+    (r : Bool) (rest : List Bool) (c : List Tick.Cmd) (l : Log) :
+    check_exception_raised cfg { running := r, ans := fl ++ rest, cmds := c, log := l } =
+      some ((Tick.readFlags 0 fl).2, { running := r, ans := rest, cmds := c, log := l ++ renderFlags 0 fl }) := by
+  simp [check_exception_raised, h, loop_reads_all, Flat.readFlags_any, pure, StateT.pure]
+
+end Mon
